@@ -90,10 +90,12 @@ package ontology
 //@ # no dangling edges: when DeleteResource gets as far as deleting the resource row, no stored
 //@ # relationship touches the resource any more
 //@ func (d dagWriter) DeleteResource(ctx context.Context, id ID) (err error)
+//@   theory strings
 //@   requires wfID(id)
 //@   atcall NewDelete forall r Relationship :: SpecEdges[r] ==> r.From != id && r.To != id
 //@   modifies *
 //@ func (d dagWriter) DeleteManyResources(ctx context.Context, ids []ID) (err error)
+//@   theory strings
 //@   requires forall i int :: 0 <= i && i < len(ids) ==> wfID(ids[i])
 //@   atcall NewDelete forall r Relationship :: SpecEdges[r] ==> (forall i int :: 0 <= i && i < len(ids) ==> r.From != ids[i] && r.To != ids[i])
 //@   modifies *
